@@ -604,7 +604,14 @@ def _gen_session(rng, tier):
             # a user module whose file name collides with a bundled module
             new = [{"inst": "S", "src": rng.choice([
                 "require 'vendor/OS'", "require 'vendor/IO.ckl'",
-                "require 'x/Sys'", "require 'vendor/OS' unqualified"]),
+                "require 'x/Sys'", "require 'vendor/OS' unqualified",
+                # module specs that try to leave the module directories
+                "require '../../../canary/s'; s->from_script",
+                "require '../canary/s.ckl' unqualified",
+                "require '../../canary/s' as esc_; esc_->from_script",
+                f"require '{CAN}/s'; s->from_script",
+                "def sp_ = '../../../canary/s'; require sp_",
+                "require 'vendor/../../../../canary/s.ckl'"]),
                 "tag": "usermod"}]
             new += rng.sample(os_native_ops(), 3)
             need_late[0] = True
@@ -681,24 +688,27 @@ def allowed_for_secure(ev, moddirs):
     """is this world event a permitted effect of a secure instance?"""
     from ..world import SUT_SRC
     moddirs = list(moddirs) + [SUT_SRC + "/ckl/modules"]
+    import posixpath
     kind = ev[2]
     if kind in ("out", "in", "console", "clock", "outcome", "fault",
                 "outclose", "inclose"):
         return True
     if kind == "pkg":
         return True
-    if kind == "stat":
-        path = ev[4]
+
+    def inside(path):
+        # judged on the normalised path: a module source is a .ckl file
+        # *in* a module directory, not one reached from it through `..`
+        path = posixpath.normpath(str(path))
         return path.endswith(".ckl") and any(
             path.startswith(d + "/") for d in moddirs)
+    if kind == "stat":
+        return inside(ev[4])
     if kind == "open":
         path, mode = ev[3], ev[4]
-        return mode in ("r", "rt") and path.endswith(".ckl") and any(
-            path.startswith(d + "/") for d in moddirs)
+        return mode in ("r", "rt") and inside(path)
     if kind == "fsread":
-        path = ev[3]
-        return path.endswith(".ckl") and any(
-            path.startswith(d + "/") for d in moddirs)
+        return inside(ev[3])
     return False
 
 
